@@ -8,10 +8,12 @@ import (
 	"os"
 
 	"verif/internal/core"
+	"verif/internal/muxdiff"
 	"verif/internal/pattern"
 )
 
 var checks = map[string]func(*core.Ctx){
+	"C06": muxdiff.Run,
 	"C17": pattern.Run,
 }
 
